@@ -55,7 +55,23 @@ func runC04(ctx *core.Ctx) {
 		return
 	}
 	stopUser := func(f *ssa.Function) bool { return false }
-	reach := reachableMod(p, []*ssa.Function{run}, stopUser)
+	// run reaches the built-in commands only through the command table (a map of function values):
+	// they are entry points of their own
+	entries := []*ssa.Function{run}
+	{
+		cmds := builtinCmds(p)
+		var names []string
+		for n := range cmds {
+			names = append(names, n)
+		}
+		sort.Strings(names)
+		for _, n := range names {
+			if cmds[n] != nil {
+				entries = append(entries, cmds[n])
+			}
+		}
+	}
+	reach := reachableMod(p, entries, stopUser)
 	// ---- I1
 	{
 		forbidden := []string{"os.Chdir", "os.Setenv", "os.Unsetenv", "os.Clearenv", "syscall.Chdir", "syscall.Setenv", "syscall.Unsetenv", "syscall.Clearenv", "(*os.File).Chdir", "syscall.Fchdir"}
@@ -112,7 +128,7 @@ func runC04(ctx *core.Ctx) {
 				continue // testenv etc. consult the host to answer conditions, not to build the environment
 			}
 			g := graph(p, f)
-			for _, c := range g.Calls("os.Environ", "syscall.Environ") {
+			for _, c := range g.Calls("os.Environ", "syscall.Environ", "(*os/exec.Cmd).Environ") {
 				n++
 				ctx.Bad("I2", shortFn(f)+"#environ"+itoa(n), c.Pos(), "the host environment is read wholesale: host variables become visible to scripts")
 			}
@@ -908,6 +924,7 @@ func cleanupInterruptsFirst(ctx *core.Ctx, rule string, a *ssa.Function) {
 
 // c04Retention: rules about what is kept and what is removed (round 4).
 func c04Retention(ctx *core.Ctx) {
+	c04ScriptPath(ctx)
 	p := ctx.P
 	ctx.Rule("I9", "a caller-supplied work-directory root is never cleaned up: on every path from 'WorkdirRoot is not empty' to the first subtest, Params.TestWork is set to true, with no further condition (the spelling of the path - a symlink, a trailing separator - must not matter)", 1)
 	ctx.Rule("I10", "removeAll first makes every directory of the tree accessible: the chmod in its walk is applied to every directory the walk reports without an error, under no other condition (a write-only or search-only directory otherwise survives, and with it the work directory and the shared root)", 1)
@@ -1005,5 +1022,50 @@ func c04Retention(ctx *core.Ctx) {
 		if n == 0 {
 			ctx.Bad("I10", "testscript.removeAll#chmod", ra.Pos(), "removeAll does not chmod directories before removing the tree")
 		}
+	}
+}
+
+// c04ScriptPath (I11): a bare program name is resolved on the script's PATH or not at all.
+func c04ScriptPath(ctx *core.Ctx) {
+	p := ctx.P
+	ctx.Rule("I11", "programs come from the script's PATH: in buildExecCmd, exec.Command is reached for a bare name only when the look-up on the script's PATH (execpath.Look with the script's Getenv) returned a nil error; with the error swallowed, exec.Command resolves the name on the host PATH and the script runs a program its PATH does not have", 1)
+	f := p.Func("testscript", "(*TestScript).buildExecCmd")
+	if f == nil || len(f.Params) < 2 {
+		ctx.Note("I11", "testscript.buildExecCmd", token.NoPos, "buildExecCmd not found; clause not decided")
+		return
+	}
+	g := graph(p, f)
+	var look *ssa.Call
+	for _, c := range g.Calls(core.ModPath + "/internal/os/execpath.Look") {
+		look = c
+	}
+	n := 0
+	for _, c := range g.Calls("os/exec.Command") {
+		n++
+		ok := false
+		if look != nil {
+			lerr := ssax.Extracted(look, 1)
+			ok = onAllPaths(g, c, nil, func(fc ssax.Fact) bool {
+				if fc.NilOf != nil {
+					return fc.IsNil && fc.NilOf == lerr
+				}
+				if x, eq, isNC := ssax.NilCheck(fc.Cond); isNC && x == lerr && eq == fc.Val {
+					return true
+				}
+				// not a bare name: filepath.Base(command) == command is false
+				if b, isB := fc.Cond.(*ssa.BinOp); isB && (b.Op == token.EQL || b.Op == token.NEQ) && (b.Op == token.EQL) != fc.Val {
+					for _, pr := range [][2]ssa.Value{{b.X, b.Y}, {b.Y, b.X}} {
+						if bc, isC := pr[0].(*ssa.Call); isC && ssax.CalleeName(&bc.Call) == "path/filepath.Base" && bc.Call.Args[0] == pr[1] {
+							return true
+						}
+					}
+				}
+				return false
+			})
+		}
+		ctx.Check(ok, "I11", "testscript.buildExecCmd#command"+itoa(n), c.Pos(), "the command is built only after the name was found on the script's PATH (or is not a bare name)")
+	}
+	if n == 0 {
+		ctx.Note("I11", "testscript.buildExecCmd#command", f.Pos(), "buildExecCmd does not call exec.Command; clause not decided")
 	}
 }
